@@ -5,6 +5,8 @@ package flight12
 //symgo:replace github.com/pion/dtls/v3/pkg/crypto/prf.MasterSecret zzFakeMasterSecret
 //symgo:replace github.com/pion/dtls/v3/internal/handshakecrypto.VerifyKeySignature zzFakeVerifyKeySignature
 //symgo:replace github.com/pion/dtls/v3/internal/handshakecrypto.VerifyCertificateVerify zzFakeVerifyCertificateVerify
+//symgo:replace github.com/pion/dtls/v3/pkg/crypto/prf.VerifyDataClient zzFakeVerifyDataClient
+//symgo:stub prf.VerifyDataClient returns twelve zero bytes, the verify_data the harness puts into the client's Finished (the Finished check itself is C04)
 //symgo:stub prf.MasterSecret returns a constant; VerifyKeySignature / VerifyCertificateVerify always report a VALID signature (the most permissive peer: acceptance then depends only on the policy check under test); the cipher suite is a harness fake (certificate authenticated, Init does nothing)
 //symgo:assume zzSigSchemeServerAccepts: the server's scheme list entries are well-formed as ParseSignatureSchemes produces them (a PSS code point with its own hash, or two one-byte values that do not spell a PSS code point), so that each entry stands for exactly one wire code point
 //symgo:outside certificate chain verification and signature_algorithms_cert policy (C11 concerns the handshake signature scheme)
@@ -27,6 +29,8 @@ import (
 	"github.com/pion/dtls/v3/pkg/protocol/handshake"
 	"github.com/pion/dtls/v3/pkg/protocol/recordlayer"
 )
+
+func zzFakeVerifyDataClient(_, _ []byte, _ prf.HashFunc) ([]byte, error) { return make([]byte, 12), nil }
 
 func zzFakeMasterSecret(_, _, _ []byte, _ prf.HashFunc) ([]byte, error) { return []byte{0x33}, nil }
 
